@@ -53,7 +53,7 @@ pub struct RunInfo {
 
 /// Run one (scenario, schedule) pair and judge it.
 pub fn eval_run(scn: &Arc<Scenario>, spec: &SchedSpec) -> RunInfo {
-    let r = run_concurrent(scn.clone(), spec.clone(), MAX_STEPS);
+    let (r, progress) = run_concurrent_with_progress(scn.clone(), spec.clone(), MAX_STEPS);
     let mut info = RunInfo { verdict: Verdict::Pass { searched: false }, sched: r.sched, stm: r.stm, fin_hash: 0, committed: 0, n_tx: scn.n_tx(), build_tries: 0, f1_fired: 0 };
     info.verdict = match r.outcome {
         Outcome::Done(c) => {
@@ -94,17 +94,15 @@ pub fn eval_run(scn: &Arc<Scenario>, spec: &SchedSpec) -> RunInfo {
             }
             (Some(false), n, _) => Verdict::Violation { class: "panic", message: format!("a thread panicked under this schedule although none of {n} serial executions (every order of every subset of the transactions) panics: {msg}") },
         },
-        Outcome::Deadlock(msg) => match serial_explains(scn, Symptom::Blocks, SURVEY_BUDGET) {
-            (Some(true), _, why) => Verdict::Discard(why.unwrap_or_default()),
-            (None, _, _) => Verdict::Inconclusive("deadlock: too many serial executions to rule out a sequential explanation"),
-            (Some(false), n, _) => Verdict::Violation { class: "deadlock", message: format!("all threads blocked although none of {n} serial executions (every order of every subset of the transactions) blocks: {msg}") },
+        Outcome::Deadlock(msg) => match unexplained_block(scn, &progress) {
+            Some(why) => Verdict::Violation { class: "deadlock", message: format!("all threads blocked ({msg}); {why}") },
+            None => Verdict::Discard("every blocked transaction also blocks when run alone after the committed ones".into()),
         },
         Outcome::StepBound => {
             if info.sched.turned_fair {
-                match serial_explains(scn, Symptom::Blocks, SURVEY_BUDGET) {
-                    (Some(true), _, why) => Verdict::Discard(why.unwrap_or_default()),
-                    (None, _, _) => Verdict::Inconclusive("step bound: too many serial executions to rule out a sequential explanation"),
-                    (Some(false), _, _) => Verdict::Violation { class: "non-termination", message: format!("no termination within {MAX_STEPS} steps, of which the last ran fault-free under a fair schedule") },
+                match unexplained_block(scn, &progress) {
+                    Some(why) => Verdict::Violation { class: "non-termination", message: format!("no termination within {MAX_STEPS} steps, of which the last ran fault-free under a fair schedule; {why}") },
+                    None => Verdict::Discard("every unfinished transaction also blocks when run alone after the committed ones".into()),
                 }
             } else {
                 Verdict::Inconclusive("step bound before the fair phase")
@@ -414,8 +412,69 @@ pub fn gen_pair_conflict(rng: &mut Rng) -> Scenario {
     Scenario { init, order, threads, f2: vec![], pre: vec![] }
 }
 
+/// S6: a kernel blocks in `retry()` until another thread writes what it is waiting for (an edge
+/// cut whose end point has no coordinates yet); exercises park / unpark, early wake-ups (F3) and
+/// the lost-wake-up oracle.
+pub fn gen_s6(rng: &mut Rng) -> Scenario {
+    use crate::ops::{Op, Runner, Tx};
+    let kinds = if rng.chance(0.7) { 0 } else { (1 << crate::attrs::K_VA) | (1 << crate::attrs::K_EA) | (1 << crate::attrs::K_FA) };
+    let mut init = kernel_state(rng, kinds, true, 2);
+    let pv = init.partition(0);
+    for d in 1..init.n() {
+        if init.vtx[d].is_none() && !init.is_free(d as u32) && pv[d] == d as u32 {
+            init.vtx[d] = Some(crate::state::b3([d as f64 * 0.37 + 11.0, 7.0 - d as f64 * 0.11, 0.0]));
+        }
+    }
+    let order = rand_order(rng, init.kinds);
+    let linked: Vec<u32> = (1..init.n() as u32).filter(|&d| !init.is_free(d)).collect();
+    let mut pool = free_pool(&init);
+    let e = *rng.pick(&linked);
+    let pe = init.partition(1);
+    let e = pe[e as usize];
+    // the waited-for vertex: an end point of e
+    let v = if rng.chance(0.5) { pv[e as usize] } else { pv[init.b(1, e) as usize] };
+    let value = init.vtx[v as usize].take().unwrap();
+    let mk_cut = |rng: &mut Rng, init: &crate::state::State, pool: &mut Vec<u32>, e: u32| -> Op {
+        rng.shuffle(pool);
+        if init.b(2, e) == 0 {
+            let nd: Vec<u32> = pool.drain(..3.min(pool.len())).collect();
+            Op::CutOuter { e, nd: [nd[0], nd[1], nd[2]] }
+        } else {
+            let nd: Vec<u32> = pool.drain(..6.min(pool.len())).collect();
+            Op::CutInner { e, nd: [nd[0], nd[1], nd[2], nd[3], nd[4], nd[5]] }
+        }
+    };
+    let runner = |rng: &mut Rng| match rng.below(4) {
+        0 => Runner::ControlRetry,
+        1 => Runner::RetryLoop(2),
+        _ => Runner::WithErr,
+    };
+    let mut threads: Vec<Vec<Tx>> = vec![];
+    let op = mk_cut(rng, &init, &mut pool, e);
+    threads.push(vec![Tx { runner: runner(rng), ops: vec![op], f1: vec![], f2: vec![], f1_attempt: 0 }]);
+    // the writer, possibly after an unrelated transaction
+    let mut w = vec![];
+    if rng.chance(0.5) {
+        w.push(Tx { runner: Runner::WithErr, ops: vec![Op::ReadV { id: pv[*rng.pick(&linked) as usize] }], f1: vec![], f2: vec![], f1_attempt: 0 });
+    }
+    w.push(Tx { runner: if rng.chance(0.5) { Runner::Atomically } else { Runner::WithErr }, ops: vec![Op::WriteV { id: v, v: value }], f1: vec![], f2: vec![], f1_attempt: 0 });
+    threads.push(w);
+    if rng.chance(0.4) && pool.len() >= 6 {
+        // a second waiter on another edge at the same vertex
+        let others: Vec<u32> = linked.iter().copied().filter(|&d| pe[d as usize] == d && d != e && (pv[d as usize] == v || pv[init.b(1, d) as usize] == v)).collect();
+        if !others.is_empty() {
+            let e2 = *rng.pick(&others);
+            let op = mk_cut(rng, &init, &mut pool, e2);
+            threads.push(vec![Tx { runner: runner(rng), ops: vec![op], f1: vec![], f2: vec![], f1_attempt: 0 }]);
+        }
+    }
+    let n = threads.len();
+    Scenario { init, order, threads, f2: (0..n).map(|_| if rng.chance(0.2) { vec![0] } else { vec![] }).collect(), pre: vec![] }
+}
+
 pub fn gen_family(rng: &mut Rng) -> (&'static str, Scenario) {
-    match rng.below(26) {
+    match rng.below(29) {
+        26..=28 => ("S6", gen_s6(rng)),
         20..=25 => ("S1b", gen_pair_conflict(rng)),
         0..=7 => ("S1", gen_s1(rng)),
         8..=12 => ("S2", gen_s2(rng)),
